@@ -100,7 +100,7 @@ def run(prop, tier, seed, plan, replay_dir=None, merge=False, full=False):
                 if cause.startswith("hang:"):
                     props |= {"C05"}
                     if "close" in cause or "channels_not_closed" in cause:
-                        props |= {"C06"}
+                        props |= {"C06", "C13"}      # a Close that never returns releases nothing
                 if "closed channel" in cause:
                     props |= {"C06"}
                 if prop not in props:
